@@ -5,7 +5,8 @@ the observable is, per identifier string, the outcome of five real entry points
   ScriptDirectory.get_revisions / get_revision / as_revision_number  and
   RevisionMap._parse_upgrade_target / _parse_downgrade_target under ScriptDirectory._catch_revision_errors
 as a tuple of resolved ids ('base' / None kept apart) or the exception CLASS (CommandError split by the
-class of its __cause__: MultipleHeads / ResolutionError / RangeNotAncestorError / other RevisionError).
+class of its __cause__: MultipleHeads / ResolutionError / RangeNotAncestorError / other RevisionError),
+plus Revision.branch_labels of every revision after the load (what _add_branches propagated).
 """
 import random
 import re
@@ -15,8 +16,9 @@ from harness import coqfmt as cf
 PROP = "C16"
 COQ = dict(imports=["Model.Resolve", "Spec.C16"], in_ty="c16_in", out_ty="c16_out",
            corr="corr_C16", decide="check_C16", model="run")
-THEOREMS = ["C16_decider_sound", "C16_regex_char", "C16_full_id", "C16_prefix_partial", "C16_prefix_refuted",
-            "C16_symbolic", "C16_relative", "C16_never_outside_branch", "C16_model_holds"]
+THEOREMS = ["C16_decider_sound", "C16_regex_char", "C16_full_id", "C16_prefix_partial", "C16_prefix_complete",
+            "C16_prefix_refuted", "C16_symbolic", "C16_relative", "C16_never_outside_branch",
+            "C16_model_holds_full_ids", "C16_reference_meaning"]
 TRUSTED = [
     "order oracle: the iteration order of the has_branch_labels set and the last-yielded descendant used by "
     "RevisionMap._add_branches are observed from the real run (same objects, same process) and handed to the model, "
@@ -30,12 +32,14 @@ ASSUME = [
     "identifier strings are ASCII printable without whitespace; ids and labels of the theorems consist of word characters",
     "current revisions handed to the relative forms are full revision ids",
 ]
-RULE = ("seeded random histories of 1-5 revisions (thorough: up to 6) whose ids are strings of length 2-6 over {a,b,c} built to "
+RULE = ("8 fixed histories (design-time witnesses, label-propagation shapes) + seeded random histories (quick 90, thorough 700) "
+        "of 1-5 revisions (thorough: up to 6) whose ids are strings of length 2-6 over {a,b,c} built to "
         "collide on prefixes (ids that are prefixes of other ids and of labels), 0-2 branch labels (sometimes colliding with an id "
         "or each other -> load error), random load order, 0-2 down revisions, occasional depends_on; for each history EVERY "
         "identifier string of the grammar {id, every proper prefix of every id and label, label, head, heads, base, x@y with x in "
-        "names and y in names + head/heads/base/+-1/+-2, name+-1, name+-2, +-1, +-2, a fixed junk list} in batches of <=40, the "
-        "current-relative forms additionally under every single current revision, the empty state and all heads. "
+        "names and y in names + head/heads/base/+-1/+-2, name+-1, name+-2, +-1, +-2, a fixed junk list, label@id+-N} in batches of <=16 "
+        "(batches are split by the two recorded finding classes so that a known deviation cannot mask a new one), the "
+        "current-relative forms additionally under every single current revision, all heads and a random pair. "
         "non-trivial = at least one entry point resolved at least one string of the batch to a revision; distinct by encoded case")
 EXHAUSTIVE = {"quick": False, "thorough": False}
 CASE_TIMEOUT = 60
@@ -53,7 +57,7 @@ LEVEL_NOTE = ("Trusted: Coq kernel+vm_compute, the hand-written model (tied by a
               "non-ASCII identifiers.")
 
 ALPHA = "abc"
-BATCH = 40
+BATCH = 16
 JUNK = ["", "@", "+", "-", "+1x", "a+", "a-b", "a@b@c", "a@b@c+1", "@head", "head@", "heads@head", "head@head", "base@base",
         "12", "-0", "+0", "a.b+1", "a b", "head-1", "head+1", "base+1", "base-1", "heads-1", "1_0", "-1_0", "zzzz", "zzzz@head",
         "zzzz+1", "head@heads", "a@", "@a", "a@+", "a@-1x", "a@head+1", "a@base+1"]
@@ -234,6 +238,18 @@ FIXED = [
     [{"id": "r0a0", "down": [], "deps": [], "labels": []}, {"id": "r1a1", "down": ["r0a0"], "deps": [], "labels": []},
      {"id": "r2a2", "down": ["r1a1"], "deps": [], "labels": ["lab0"]}],
     [],
+    # label propagation shapes: the upward walk starts from the LAST-YIELDED DESCENDANT, so a branch point or a merge
+    # point between the labelled revision and that descendant keeps the label away from the ancestors
+    [{"id": "paaa", "down": [], "deps": [], "labels": []}, {"id": "raaa", "down": ["paaa"], "deps": [], "labels": ["lbl1"]},
+     {"id": "caaa", "down": ["raaa"], "deps": [], "labels": []}, {"id": "daaa", "down": ["caaa"], "deps": [], "labels": []},
+     {"id": "dbbb", "down": ["caaa"], "deps": [], "labels": []}],
+    [{"id": "paaa", "down": [], "deps": [], "labels": []}, {"id": "raaa", "down": ["paaa"], "deps": [], "labels": ["lbl1"]},
+     {"id": "xaaa", "down": [], "deps": [], "labels": []}, {"id": "maaa", "down": ["raaa", "xaaa"], "deps": [], "labels": []}],
+    [{"id": "paaa", "down": [], "deps": [], "labels": []}, {"id": "raaa", "down": ["paaa"], "deps": [], "labels": ["lbl1"]},
+     {"id": "caaa", "down": ["raaa"], "deps": [], "labels": ["lbl2"]}, {"id": "xaaa", "down": [], "deps": ["caaa"], "labels": []},
+     {"id": "daaa", "down": ["caaa"], "deps": [], "labels": []}],
+    [{"id": "paaa", "down": [], "deps": [], "labels": []}, {"id": "raaa", "down": ["paaa"], "deps": [], "labels": []},
+     {"id": "caaa", "down": ["raaa"], "deps": [], "labels": ["lbl1"]}, {"id": "daaa", "down": ["caaa"], "deps": [], "labels": []}],
 ]
 
 
@@ -241,7 +257,7 @@ def generate(tier, seed):
     rnd = random.Random(seed * 7919 + 16)
     for revs in FIXED:
         yield from cases_for(revs, rnd)
-    ngraphs = 260 if tier == "quick" else 3000
+    ngraphs = 90 if tier == "quick" else 700
     for k in range(ngraphs):
         nmax = 5 if tier == "quick" or k % 4 else 6
         revs = rand_history(rnd, nmax, long_ids=(k % 3 == 0))
@@ -250,7 +266,7 @@ def generate(tier, seed):
 
 def search(tier, seed):
     rnd = random.Random(seed * 104729 + 16)
-    for k in range(1500):
+    for k in range(120):
         revs = rand_history(rnd, 6, long_ids=(k % 2 == 0))
         yield from cases_for(revs, rnd)
 
@@ -334,8 +350,10 @@ def run_case(h):
     try:
         m._revision_map
         oracle = m._obs or []
+        labels = [(o.revision, sorted(o.branch_labels)) for o in objs]
     except R.RevisionError:
         oracle = []
+        labels = []
     cur = tuple(h["cur"])
     out = []
     nontrivial = False
@@ -369,10 +387,12 @@ def run_case(h):
         cf.lst("(%s, %s)" % (S(a), S(b)) for a, b in oracle),
         cf.lst(S(x) for x in cur),
         cf.lst(S(q) for q in h["queries"]))
-    cout = cf.lst("(mkObs %s)" % " ".join(_coq_outcome(x) for x in o) for o in out)
+    cout = "(mkOut %s %s)" % (
+        cf.lst("(%s, %s)" % (S(x), cf.lst(S(l) for l in ls)) for x, ls in labels),
+        cf.lst("(mkObs %s)" % " ".join(_coq_outcome(x) for x in o) for o in out))
     nlab = sum(len(r["labels"]) for r in revs)
     shape = "n%d-l%d-%s%s" % (len(revs), nlab, "cur" if cur else "abs", ("-affected" if h.get("affected") else "") + ("-dglabel" if h.get("dglabel") else ""))
-    return dict(cin=cin, cout=cout, out={"oracle": oracle, "obs": out}, nontrivial=nontrivial, shape=shape)
+    return dict(cin=cin, cout=cout, out={"oracle": oracle, "labels": labels, "obs": out}, nontrivial=nontrivial, shape=shape)
 
 
 def _coq_elem(e):
